@@ -631,11 +631,26 @@ class FuncRun(ExprMixin, InstrMixin, CallMixin):
     def check_loop_exits(self, ctx, b, succ, st):
         """`exit-ensures` clauses of every loop this edge leaves (normal termination or break)"""
         cfg = ctx['cfg']
+
+        def returns_at_once(bi, depth=0):
+            # an edge into a block that (through plain jumps) ends in `return` is an early return, not the end of the loop
+            blk_ = cfg.blocks[bi]
+            last = blk_['instrs'][-1] if blk_['instrs'] else None
+            if last is None:
+                return False
+            if last['op'] in ('Return', 'Panic'):
+                return True
+            if last['op'] == 'Jump' and depth < 4 and len(blk_['succs']) == 1:
+                return returns_at_once(blk_['succs'][0], depth + 1)
+            return False
         for header, body in cfg.loops.items():
             if b in body and succ not in body:
                 n, lspec = self.loop_spec(ctx, header)
                 if lspec is None or not lspec.exit_ensures:
                     continue
+                normal_targets = {s_ for s_ in cfg.succs[header] if s_ not in body}
+                if b != header and succ not in normal_targets and returns_at_once(succ):
+                    continue        # an early `return` from inside the body (a `break` lands where the normal exit lands)
                 env = self.make_env(ctx, st, b)
                 fnname = self.oname if ctx['frame'] == self.top_frame else self.inline_name(ctx)
                 for c in lspec.exit_ensures:
